@@ -292,3 +292,48 @@ def apply_item_rewrites(toks, log, opts=None):
     if opts.get("inherent"):
         toks = r8_inherent(toks, log, opts.get("assoc"))
     return toks
+
+
+def r13_prefix_defs(toks, log, prefix, names):
+    """R13a: top-level fn/const/static (and listed type) names of a flattened module get `<prefix>__`;
+    bare uses of those names inside the same module are renamed too."""
+    out = []
+    for i, t in enumerate(toks):
+        if t.kind == "id" and t.text in names:
+            prev = toks[i - 1].text if i > 0 else ""
+            if prev in (".",) or (prev == "::" and not (i > 1 and toks[i - 2].text in ("self", "Self", "super", "crate"))):
+                out.append(t); continue
+            if prev == "::" and toks[i - 2].text == "Self":
+                out.append(t); continue
+            nxt = toks[i + 1].text if i + 1 < len(toks) else ""
+            if prev in ("fn", "const", "static", "struct", "enum", "type") or nxt in ("(", "::", "<", "{") or names[t.text] == "type" or prev in ("&", "(", ",", "=", "[", "return", "<", ":", "->", "mut"):
+                if prev == ":" and nxt not in ("(", "::", "<", "{", ",", ")", ">", ";", "=") and names[t.text] != "type":
+                    out.append(t); continue
+                log.add("R13", t, t.text)
+                out.append(t.clone(text=prefix + "__" + t.text))
+                continue
+        out.append(t)
+    # drop `self ::` / `super ::` left in front of renamed names
+    return out
+
+def r13_paths(toks, log, paths):
+    """R13b: module paths in front of an item name become the flattened prefix: `address::decode` -> `address__decode`.
+    paths: list of (list-of-path-segments, prefix or "" to just drop the path)."""
+    out = []
+    i = 0
+    n = len(toks)
+    while i < n:
+        matched = False
+        for segs, prefix in paths:
+            k = len(segs)
+            if i + 2 * k < n and all(toks[i + 2 * a].text == segs[a] and toks[i + 2 * a + 1].text == "::" for a in range(k)) \
+                    and toks[i + 2 * k].kind == "id" and (i == 0 or toks[i - 1].text != "::"):
+                tgt = toks[i + 2 * k]
+                log.add("R13", toks[i], "".join(x.text for x in toks[i:i + 2 * k + 1]))
+                out.append(tgt.clone(text=(prefix + "__" + tgt.text) if prefix else tgt.text, ws=toks[i].ws))
+                i += 2 * k + 1
+                matched = True
+                break
+        if not matched:
+            out.append(toks[i]); i += 1
+    return out
